@@ -387,7 +387,7 @@ def run(ctx):
             ctx.ob("R14.4", "%s::%s" % (e, v), v in constructed.get(e, ()),
                    "rejection %s::%s is %s in reachable code" % (last_seg(e), v,
                                                                  "constructed" if v in constructed.get(e, ()) else "NO LONGER constructed (a validation was removed)"), "")
-    ctx.floor("rejections tracked", n_rej, 80)
+    ctx.floor("rejections tracked", n_rej, 60)
     _controls(ctx, F, wrappers)
 
 
